@@ -164,6 +164,18 @@ CHECKS = {
    note="the bulk comparison (200k / 2M doubles, 1M / 16M floats) is a harness bit comparison; TLC validates the sampled events (800 / 5000).",
    technique="round-trip recorded from the code; TLC explains sampled events with the formatting and parsing specifications",
    design="6 (C11)"),
+ "C04": dict(
+   text="Expression semantics is an explicit TLA+ specification (QExpr): operands (literals, variables of every kind with the document value "
+        "they resolve to, text next to ==/!=, parenthesised sub-expressions), exact dyadic arithmetic with the documented typing rules, "
+        "and Admissible(e) = the results of all parse trees consistent with the documented precedence groups (left association inside "
+        "* / and + -, every shape inside the groups the documentation leaves open). All 1- and 2-operand expressions over 31 operands x "
+        "16 operators, 25k sampled (thorough: all 655k) 3-operand expressions and random 4..6-operand expressions with parentheses are "
+        "run through ParseExpressions + Evaluate and through {math:}, {if case=}, <if case=> from exact-size buffers under ASan/UBSan "
+        "(a trap is a crash is a violation); TLC judges every event.",
+   note="values outside the exact dyadic domain are unjudged; non-integral operands of ^ are specified as 'no value'; one known "
+        "finding (sign of negative base ^ negative even exponent, pinned by EvaluateTest) is classified by the oracle itself.",
+   technique="TLA+ expression semantics with all documented parse trees; TLC batch oracle over recorded evaluations; sanitizers for traps",
+   design="6 (C04), appendix E.5"),
 }
 PENDING = "not yet claimed in this revision: its specification and conformance harness are still being built (DESIGN.md section 6 describes the plan)"
 m = {
